@@ -72,7 +72,7 @@ PROPERTIES = {
                "covers the whole initial block; defaults are included unless the condition is implied by the guard; implied-by-guard answers are sound. "
                "NOT decided: that the fixed point covers all reachable values."),
     "C06": dict(
-        specs=[S("NULLSPACE"), S("ABSTRACT"), S("GROEBNER")],
+        specs=[S("NULLSPACE"), S("ABSTRACT"), S("GROEBNER"), S("RATLATTICE")],
         clause="no truncation of a rational kernel on the way to exponent vectors; exponentials are abstracted only behind raising checks; the eliminated symbols are "
                "exactly the lex prefix that is filtered. NOT decided: that reported polynomials vanish on the sequences."),
     "C07": dict(
@@ -100,7 +100,7 @@ PROPERTIES = {
         clause="CPT rows are written only after the row-sum check, in default->table->entries order with a final completeness check; generated code is in topological "
                "order, numbers values by domain position of their own variable; names are sanitised to grammar atoms. NOT decided: numeric query answers."),
     "C16": dict(
-        specs=[S("NULLSPACE"), S("KAUERS")],
+        specs=[S("NULLSPACE"), S("KAUERS"), S("RATLATTICE")],
         clause="the rational kernel is not truncated to integers; the LLL loop returns only what passed the exact membership test. NOT decided: independence, completeness."),
     "C17": dict(
         specs=[S("SETTINGS-W"), S("SETTINGS-C"), S("ROOTS"), S("LOSSY", r"utils/expressions.py"), S("SOLVERFLAG"), S("REBUILD"), S("PARSER", r"_transform_categorical"),
